@@ -664,7 +664,9 @@ class FilterDimensions(Contract):
             ("new-size", size(v1.vals[nm]) == n_kept),
             ("same-type", VAR.accessor("type")(v1.vals[nm]) == VAR.accessor("type")(v0.vals[nm])),
             ("dimension", s1.dimension == s0.dimension - (size(v0.vals[nm]) - n_kept)),
-            ("normalize-kept", unchanged_dict(N(s1), N(s0))),
+            # (the policy of `name` is filtered like its bounds - repaired in /repo 4b13d7d; its content is proved at the link level:
+            # contracts/c02_more.py FilterDimensionsLnk - the policies of the other variables and the order are kept)
+            ("other-policies-kept", z3.And(same_key_order(N(s1), N(s0)), _vals_kept_except(N(s1), N(s0), nm))),
         ] + caches_invalidated(s0, s1)
 
 
